@@ -65,14 +65,12 @@ func readFrameOfType(fType byte, reader *bufio.Reader, isTCP bool) (frame, error
 		if err != nil {
 			return nil, err
 		}
-		length := binary.BigEndian.Uint16(peeked) + 2 // +2 to include the length bytes
+		length := int(binary.BigEndian.Uint16(peeked)) + 2 // +2 to include the length bytes
 
 		// actual data
 		data = make([]byte, length)
-		var n int
-		for read := 0; read < int(length) && err == nil; {
-			n, err = reader.Read(data[read:])
-			read += n
+		if _, err := io.ReadFull(reader, data); err != nil {
+			return nil, err
 		}
 	default:
 		return nil, fmt.Errorf("Unexpected frame type %c", fType)
@@ -85,7 +83,9 @@ func readFrameOfType(fType byte, reader *bufio.Reader, isTCP bool) (frame, error
 	// Verify CRC sums
 	if !isTCP {
 		sumBytes := make([]byte, 2)
-		reader.Read(sumBytes)
+		if _, err := io.ReadFull(reader, sumBytes); err != nil {
+			return nil, err
+		}
 		crc := binary.BigEndian.Uint16(sumBytes)
 		if crc16Sum(data) != crc {
 			return nil, ErrChecksumMismatch
@@ -97,6 +97,9 @@ func readFrameOfType(fType byte, reader *bufio.Reader, isTCP bool) (frame, error
 		data = data[:len(data)-1] // Trim \r
 		return cmdFrame(string(data)), nil
 	case 'd':
+		if len(data) < 5 {
+			return nil, errors.New("Data frame too short")
+		}
 		return dFrame{dataType: string(data[2:5]), data: data[5:]}, nil
 	default:
 		panic("not possible")
